@@ -641,6 +641,7 @@ func sortInts(a []int) {
 
 func init() {
 	register(&Prop{
+		Stateless: true,
 		Name: "c08",
 		Gen:  c08Gen,
 		Exec: c08Exec,
